@@ -1,5 +1,6 @@
 //! Lazy loading functionality for DBC files
 
+use crate::versions::record_data_offset;
 use crate::{DbcHeader, Error, FieldType, Record, Result, Schema, StringBlock, Value};
 use std::io::{Cursor, Read};
 use std::sync::Arc;
@@ -16,6 +17,8 @@ pub struct LazyRecordIterator<'a> {
     current_index: u32,
     /// The total number of records
     total_records: u32,
+    /// Offset of the record area in the data (behind the version-specific header)
+    record_offset: u64,
 }
 
 impl<'a> LazyRecordIterator<'a> {
@@ -26,8 +29,9 @@ impl<'a> LazyRecordIterator<'a> {
         schema: Option<&'a Schema>,
         _string_block: Arc<StringBlock>,
     ) -> Self {
+        let record_offset = record_data_offset(data);
         let mut cursor = Cursor::new(data);
-        cursor.set_position(DbcHeader::SIZE as u64);
+        cursor.set_position(record_offset);
 
         Self {
             cursor,
@@ -35,6 +39,7 @@ impl<'a> LazyRecordIterator<'a> {
             schema,
             current_index: 0,
             total_records: header.record_count,
+            record_offset,
         }
     }
 }
@@ -49,7 +54,10 @@ impl Iterator for LazyRecordIterator<'_> {
 
         // The header is untrusted: nothing is allocated from its counts before it fits the data
         let data_len = self.cursor.get_ref().len() as u64;
-        let fits = self.header.check_fits(data_len).and_then(|_| {
+        let fits = self
+            .header
+            .check_fits_at(self.record_offset, data_len)
+            .and_then(|_| {
             if self.schema.is_none() {
                 self.header.check_raw_fields_fit(data_len)
             } else {
@@ -128,6 +136,8 @@ pub struct LazyDbcParser<'a> {
     data: &'a [u8],
     /// The string block
     string_block: Arc<StringBlock>,
+    /// Offset of the record area in the data (behind the version-specific header)
+    record_offset: u64,
 }
 
 impl<'a> LazyDbcParser<'a> {
@@ -143,6 +153,7 @@ impl<'a> LazyDbcParser<'a> {
             header,
             schema,
             string_block,
+            record_offset: record_data_offset(data),
         }
     }
 
@@ -167,14 +178,15 @@ impl<'a> LazyDbcParser<'a> {
         }
 
         // The header is untrusted: nothing is allocated from its counts before it fits the data
-        self.header.check_fits(self.data.len() as u64)?;
+        self.header
+            .check_fits_at(self.record_offset, self.data.len() as u64)?;
         if self.schema.is_none() {
             self.header.check_raw_fields_fit(self.data.len() as u64)?;
         }
 
         let mut cursor = Cursor::new(self.data);
         let record_position =
-            DbcHeader::SIZE as u64 + (index as u64 * self.header.record_size as u64);
+            self.record_offset + (index as u64 * self.header.record_size as u64);
         cursor.set_position(record_position);
 
         if let Some(schema) = self.schema {
